@@ -156,6 +156,19 @@ def condHolds (ar : Arith) (ty : NumTy) (cond : Option (RelOp × Int)) (cur : In
 def flagMap (f : Key → Bool) (keys : List Key) : List (Key × Bool) :=
   keys.foldl (fun acc k => AL.insert k (f k) acc) []
 
+/-- metadata of a Set item applied to stored metadata; `sCa sUa sEx` say which of the three
+    timestamps count as supplied -/
+def itemMeta (sCa sUa sEx : Bool) (m : Meta) (it : Item) : Meta :=
+  { ca := if sCa then it.ca else m.ca,
+    cb := if it.cb ≠ "" then it.cb else m.cb,
+    ua := if sUa then it.ua else m.ua,
+    ub := if it.ub ≠ "" then it.ub else m.ub,
+    exp := if sEx then it.exp else m.exp }
+
+def Val.isSlice : Val → Bool
+  | .u32s _ => true
+  | _ => false
+
 /-! ## Spec -/
 namespace Spec
 
@@ -164,11 +177,7 @@ abbrev Store := List (Key × Rec)
 def applyItem (old : Option Rec) (it : Item) : Rec :=
   let b := old.getD {}
   { val := dedupVal (normVal it.val),
-    m := { ca := if it.ca > 0 then it.ca else b.m.ca,
-           cb := if it.cb ≠ "" then it.cb else b.m.cb,
-           ua := if it.ua > 0 then it.ua else b.m.ua,
-           ub := if it.ub ≠ "" then it.ub else b.m.ub,
-           exp := if it.exp > 0 then it.exp else b.m.exp } }
+    m := itemMeta (decide (it.ca > 0)) (decide (it.ua > 0)) (decide (it.exp > 0)) b.m it }
 
 def setOne (create over : Bool) (st : Store) (it : Item) : Store × St :=
   match AL.find it.key st with
@@ -452,33 +461,34 @@ def validTs (cfg : Cfg) (n : Int) : Bool :=
 /-- raise-flag rule of a metadata setter -/
 def metaFlag (cfg : Cfg) (differs : Bool) : Bool := if cfg.metaCompare then differs else true
 
-/-- `keyValuesToTreasure`: value switch, then the metadata setters. Returns the mutated treasure
-    and the tags. -/
+/-- quirk tags of the value switch of `keyValuesToTreasure` -/
+def valueTags (c : Content) (nv : Val) (sr : SetRes) : List Tag :=
+  match nv with
+  | .none => if sr.c.vis != .none then [Tag.voidNoClear] else []
+  | .u32s l =>
+    if sr.c.vis != .u32s (pushU32 [] l) then (if c.vis.isSlice then [Tag.sliceMerge] else [Tag.hiddenSlice]) else []
+  | _ => []
+
+def tsTags (it : Item) (sCa sUa sEx : Bool) : List Tag :=
+  if (sCa && decide (it.ca ≤ 0)) || (sUa && decide (it.ua ≤ 0)) || (sEx && decide (it.exp ≤ 0)) then [Tag.tsSubSecond] else []
+
+def itemSupplied (sCa sUa sEx : Bool) (it : Item) : Bool :=
+  sCa || it.cb != "" || sUa || it.ub != "" || sEx
+
+/-- `keyValuesToTreasure`: value switch, then the metadata setters. Returns the mutated treasure,
+    whether a `*Changed` flag was raised by this request, and the tags. -/
 def applyItem (cfg : Cfg) (t : MRec) (it : Item) : MRec × Bool × List Tag :=
-  let v := normVal it.val
-  let sr := setValue cfg.setters t.c v
-  let tagV : List Tag :=
-    (match v with
-     | .none => if sr.c.vis != .none then [Tag.voidNoClear] else []
-     | .u32s l => if sr.c.vis != .u32s (pushU32 [] l) then (if t.c.vis matches .u32s _ then [Tag.sliceMerge] else [Tag.hiddenSlice]) else []
-     | _ => [])
+  let nv := normVal it.val
+  let sr := setValue cfg.setters t.c nv
   let sCa := validTs cfg it.ca
   let sUa := validTs cfg it.ua
   let sEx := validTs cfg it.exp
-  let tagT : List Tag :=
-    if (sCa && decide (it.ca ≤ 0)) || (sUa && decide (it.ua ≤ 0)) || (sEx && decide (it.exp ≤ 0)) then [Tag.tsSubSecond] else []
-  let m' : Meta :=
-    { ca := if sCa then it.ca else t.m.ca,
-      cb := if it.cb ≠ "" then it.cb else t.m.cb,
-      ua := if sUa then it.ua else t.m.ua,
-      ub := if it.ub ≠ "" then it.ub else t.m.ub,
-      exp := if sEx then it.exp else t.m.exp }
-  let supplied := sCa || it.cb != "" || sUa || it.ub != "" || sEx
-  let mflag := metaFlag cfg (decide (m' ≠ t.m)) && supplied
+  let m' := itemMeta sCa sUa sEx t.m it
+  let mflag := metaFlag cfg (decide (m' ≠ t.m)) && itemSupplied sCa sUa sEx it
   let tagM : List Tag := if mflag && decide (m' = t.m) && !sr.changed then [Tag.metaNoCompare] else []
-  ({ c := sr.c, m := m', changed := t.changed || sr.changed || mflag,
+  ({ c := sr.c, m := m', changed := t.changed || (sr.changed || mflag),
      expChanged := t.expChanged || (sEx && metaFlag cfg (decide (it.exp ≠ t.m.exp))) },
-   sr.changed || mflag, tagV ++ tagT ++ tagM)
+   sr.changed || mflag, valueTags t.c nv sr ++ tsTags it sCa sUa sEx ++ tagM)
 
 /-- `CreateTreasure`: the record in the key beacon, else a parked in-flight treasure, else a fresh one -/
 def createTreasure (i : Inst) (k : Key) : MRec × List Tag :=
